@@ -61,8 +61,18 @@ fn inspect_buffer(buf: &[u8], about_to_write: usize) {
     HIGH_WATER.with(|h| h.set(hw.max(about_to_write.min(buf.len()))));
 }
 
+thread_local! {
+    /// set when the consumer asked for a read into an EMPTY buffer while the script still had events
+    pub static EMPTY_BUF_READ: std::cell::Cell<bool> = std::cell::Cell::new(false);
+}
+
 impl Read for ScriptReader {
     fn read(&mut self, buf: &mut [u8]) -> std::io::Result<usize> {
+        if buf.is_empty() && self.pos < self.script.len() {
+            // `Ok(0)` for an empty buffer says nothing about the end of the stream (std::io::Read)
+            EMPTY_BUF_READ.with(|c| c.set(true));
+            return Ok(0);
+        }
         if self.pos >= self.script.len() {
             self.ended = true;
             return Ok(0);
@@ -119,6 +129,7 @@ pub fn emit_stream(out: &mut impl Write, vi: usize, script: &[Ev]) {
     with_variant!(vi, T => {
         HIGH_WATER.with(|h| h.set(0));
         SAW_POISON.with(|c| c.set(false));
+        EMPTY_BUF_READ.with(|c| c.set(false));
         let r = guarded(move || {
             let mut rd = ScriptReader { script: sc, pos: 0, delivered: Vec::new(), hard_error: None, ended: false };
             let res = stream_result(tlsh::hash_stream_for::<T, _>(&mut rd), bin_len);
@@ -133,6 +144,9 @@ pub fn emit_stream(out: &mut impl Write, vi: usize, script: &[Ev]) {
         match r {
             Ok((res, expect)) => {
                 writeln!(out, "{} => {}", head, res).unwrap();
+                if EMPTY_BUF_READ.with(|c| c.replace(false)) && !res.starts_with("ioerr:") {
+                    writeln!(out, "ORACLE C12 stream-ended-on-a-zero-length-read-into-an-empty-buffer {}", &head[..head.len().min(600)]).unwrap();
+                }
                 if SAW_POISON.with(|c| c.replace(false)) {
                     writeln!(out, "ORACLE C17 reader-was-handed-uninitialised-memory {}", &head[..head.len().min(600)]).unwrap();
                 }
@@ -187,6 +201,14 @@ pub fn stream_stream(out: &mut impl Write, seed: u64, budget: usize) {
             if j == 0 && k % 2 == 1 { script.push(Ev::Interrupted); }
         }
         emit_stream(out, 1 + k % 4, &script);
+    }
+    // long runs of small reads whose total exceeds the internal buffer (a consumer that batches small
+    // reads must not lose or stop on them), with an interruption and a trailing odd piece
+    for (k, (piece, count)) in [(1000usize, 1100usize), (4095, 300), (1, 5000), (65536, 20), (65535, 20)].iter().enumerate() {
+        let mut script: Vec<Ev> = (0..*count).map(|j| Ev::Pattern((1000 + k * 7 + j % 5) as u64, *piece)).collect();
+        script.insert(count / 2, Ev::Interrupted);
+        script.push(Ev::Pattern(77, 123));
+        emit_stream(out, [1usize, 3, 0, 2, 4][k], &script);
     }
 }
 
